@@ -1,0 +1,6 @@
+//go:build !verif
+
+package message
+
+// verifKey is used only as an argument of the (empty) verification hooks: it never touches the message.
+func verifKey(*Message) string { return "" }
